@@ -306,7 +306,7 @@ def monitors(run):
         bad.append("a child's remove() stopped the owner's sink (%d stops)" % run.sink.stops)
     if not owner_removed and any(kind == "get" and val == "sentinel" for (tn, kind, obj, val) in tr):
         bad.append("the owner's worker thread left its loop although the owner never removed the handler")
-    if not owner_removed:
+    if not owner_removed and len(tr) <= s.max_events:
         # the worker thread must still be in its loop while anybody can still log: an "exit" of the worker before the
         # last event of a producer (or before the point at which everybody was blocked) means it died on the way
         horizon = s.deadlock_pos if s.deadlock and s.deadlock_pos is not None else max(
@@ -473,14 +473,14 @@ def stream_sched(ctx):
         if pi < 2:
             ctx.sample({"stream": "sched", "program": prog})
         dfs(prog, ctx.n(2, 3), ctx.n(30, 200), lambda r, prog=prog: judge(r, prog, "dfs"))
-    for pi in range(ctx.n(8, 40) * boost):
+    for pi in range(ctx.n(8, 20) * boost):
         prog = gen_family_program(rng.fork("f%d" % pi), ctx.quick)
-        dfs(prog, ctx.n(2, 3), ctx.n(30, 200), lambda r, prog=prog: judge(r, prog, "dfs:same_process_family"))
+        dfs(prog, ctx.n(2, 3), ctx.n(30, 100), lambda r, prog=prog: judge(r, prog, "dfs:same_process_family"))
     for i in range(ctx.n(300, 4000) * boost):
         r2 = rng.fork("r%d" % i)
         prog = gen_program(r2, ctx.quick)
         judge(Run(prog, sched.random_chooser(r2, r2.choice([15, 35, 60]))).execute(), prog, "random")
-    for i in range(ctx.n(160, 2500) * boost):
+    for i in range(ctx.n(160, 1500) * boost):
         r2 = rng.fork("rf%d" % i)
         prog = gen_family_program(r2, ctx.quick)
         judge(Run(prog, sched.random_chooser(r2, r2.choice([15, 35, 60]))).execute(), prog, "random:same_process_family")
@@ -657,6 +657,107 @@ def stream_two_loops(ctx):
         ctx.stat("asyncio:two_loops")
         if bad:
             ctx.violation(bad[0], {"stream": "two_loops", "na": na, "nb": nb, "spin": spin, "violations": bad})
+            break
+
+
+def stream_call_await_apart(ctx):
+    """coroutine sinks: `logger.complete()` is CALLED in one context and its result AWAITED in another - called in an
+    executor, in a helper thread, in a coroutine of ANOTHER loop, or before the loop runs at all; loop=None and explicit
+    loop= sinks.  Awaiting the object on loop L must wait for every task scheduled on L by a message logged before the
+    call (Queue/Async.lean: the loop is read at AWAIT time, `async_complete_waits_for_its_loop`)"""
+    import concurrent.futures
+    import loguru._logger as lg
+    rng = ctx.rng.fork("apart")
+    hows = ["executor", "thread", "other_loop", "before_loop", "same"]
+    for ci in range(ctx.n(15, 200)):
+        r = rng.fork("c%d" % ci)
+        how = hows[ci % len(hows)]
+        explicit = r.chance(50) or how == "before_loop"
+        if how == "other_loop":
+            explicit = False          # the tasks must live on the loop that logs
+        nmsg, naps = r.range(1, 5), r.range(1, 3)
+        written, bad = [], []
+
+        async def sink(message, naps=naps):
+            for _ in range(naps):
+                await asyncio.sleep(0.004)
+            written.append(str(message).strip())
+
+        logger = lg.Logger(core=lg.Core(), exception=None, depth=0, record=False, lazy=False, colors=False, raw=False,
+                           capture=True, patchers=[], extra={})
+        mine = ["A-%d" % i for i in range(nmsg)]
+
+        def judge_now(where):
+            missing = [m for m in mine if m not in written]
+            if missing:
+                bad.append("coroutine sink (%s), complete() called %s and its result awaited on the loop that runs the "
+                           "tasks: the await returned before %r (logged before the call) were written"
+                           % ("loop=<the loop>" if explicit else "loop=None", where, missing))
+
+        async def main_apart():
+            loop = asyncio.get_running_loop()
+            logger.add(sink, format="{message}", catch=False, **({"loop": loop} if explicit else {}))
+            for m in mine:
+                logger.info(m)
+            if how == "executor":
+                completer = await loop.run_in_executor(None, logger.complete)
+                where = "in an executor thread (no running loop there)"
+            elif how == "thread":
+                fut = loop.create_future()
+                threading.Thread(target=lambda: loop.call_soon_threadsafe(fut.set_result, logger.complete()),
+                                 daemon=True).start()
+                completer = await fut
+                where = "in a helper thread (no running loop there)"
+            elif how == "other_loop":
+                other = asyncio.new_event_loop()
+                th = threading.Thread(target=other.run_forever, daemon=True)
+                th.start()
+
+                async def call():
+                    return logger.complete()
+                cf = asyncio.run_coroutine_threadsafe(call(), other)
+                completer = await asyncio.wrap_future(cf)
+                other.call_soon_threadsafe(other.stop)
+                where = "in a coroutine of ANOTHER event loop"
+            else:
+                completer = logger.complete()
+                where = "in the same coroutine"
+            await asyncio.wait_for(completer, 10)
+            judge_now(where)
+            await asyncio.wait_for(logger.complete(), 10)
+            logger.remove()
+
+        def runner():
+            try:
+                if how == "before_loop":
+                    loop = asyncio.new_event_loop()
+                    try:
+                        logger.add(sink, format="{message}", catch=False, loop=loop)
+                        for m in mine:
+                            logger.info(m)            # tasks are created on the loop, which is not running yet
+                        completer = logger.complete()   # called where no loop runs
+
+                        async def waiter():
+                            await asyncio.wait_for(completer, 10)
+                            judge_now("before the loop was running")
+                        loop.run_until_complete(waiter())
+                        logger.remove()
+                    finally:
+                        loop.close()
+                else:
+                    asyncio.run(main_apart())
+            except (asyncio.TimeoutError, concurrent.futures.TimeoutError):
+                bad.append("coroutine sink: awaiting the result of complete() (called: %s) did not finish within 10 s" % how)
+        th = threading.Thread(target=runner, daemon=True)
+        th.start()
+        th.join(40)
+        if th.is_alive():
+            bad.append("coroutine sink: the program (complete() called: %s) did not end within 40 s" % how)
+        ctx.case(("apart", how, explicit, nmsg, naps), nontrivial=(how != "same"))
+        ctx.stat("asyncio:call_await_apart:" + how)
+        if bad:
+            ctx.violation(bad[0], {"stream": "call_await_apart", "how": how, "explicit_loop": explicit, "nmsg": nmsg,
+                                   "naps": naps, "violations": bad})
             break
 
 
@@ -1185,7 +1286,7 @@ def stream_exit(ctx):
 
 def run(ctx):
     for stream in (stream_shapes, stream_payloads, stream_worker_errors, stream_exit, stream_sched, stream_mp, stream_asyncio, stream_two_loops,
-                   stream_enq_async, stream_multi_handler):
+                   stream_enq_async, stream_multi_handler, stream_call_await_apart):
         stream(ctx)
         if ctx.violations and getattr(ctx, "search_boost", False):
             return           # enlarged search after a broken obligation: a failing input has been found
@@ -1228,8 +1329,20 @@ def replay(ctx, rep):
         finally:
             shutil.rmtree(base, ignore_errors=True)
     else:
-        print("asyncio / shapes / payload cases are re-generated from the seed: run the check with the same VERIF_SEED")
-        return 1
+        # the remaining streams derive every case from the seed alone: re-run the stream of the recorded case with the
+        # recorded seed and tier (and the enlarged budget if an obligation was broken) and report what it finds
+        streams = {"payloads": stream_payloads, "shapes": stream_shapes, "worker_errors": stream_worker_errors,
+                   "asyncio": stream_asyncio, "two_loops": stream_two_loops, "enq_async": stream_enq_async,
+                   "multi_handler": stream_multi_handler, "call_await_apart": stream_call_await_apart}
+        fn = streams.get(r.get("stream"))
+        if fn is None:
+            print("unknown stream %r: run the check with the same VERIF_SEED" % (r.get("stream"),))
+            return 1
+        c2 = core.Ctx(PROP, rep.get("tier", "quick"), int(rep.get("seed", 0)))
+        c2.search_boost = bool(rep.get("broken_obligations"))
+        fn(c2)
+        bad = [v["what"] for v in c2.violations]
+        print("stream %s re-run with seed %s (%s tier)" % (r.get("stream"), rep.get("seed", 0), rep.get("tier", "quick")))
     for b in bad:
         print("VIOLATED:", b)
     print("REPRODUCED" if bad else "not reproduced")
